@@ -578,7 +578,7 @@ D10C = '<p i18n:translate=""><b i18n:name="a-b">one</b> and <b i18n:name="a_b">t
 
 def reproduce_finding(ctx, f):
     from chameleon import PageTemplate
-    if f['id'] == 'D-10b':
+    if f['id'] == 'D-10d':
         calls = []
 
         class O:
